@@ -124,6 +124,40 @@ fn execute(plan: &Plan) -> Outcome {
     }
 }
 
+/// Runs the plan in a child process (`simcheck exec`) and reads its outcome back.
+fn execute_in_child(plan: &Plan) -> Outcome {
+    let dir = if std::path::Path::new("/dev/shm").is_dir() { "/dev/shm" } else { "/tmp" };
+    let path = format!("{dir}/simcheck-plan-{}-{}.json", std::process::id(), plan.seed);
+    let mut child_plan = plan.clone();
+    if let Some(o) = child_plan.extra.as_object_mut() {
+        o.remove("fresh_process");
+    }
+    std::fs::write(&path, serde_json::to_string(&child_plan).unwrap()).expect("plan file");
+    let out = std::process::Command::new(std::env::current_exe().expect("own path")).arg("exec").arg(&path).output();
+    let _ = std::fs::remove_file(&path);
+    let hex = |v: &serde_json::Value| v.as_str().and_then(|s| u64::from_str_radix(s, 16).ok()).unwrap_or(0);
+    let parsed: Option<serde_json::Value> = out.ok().and_then(|o| String::from_utf8(o.stdout).ok()).and_then(|s| s.lines().last().and_then(|l| serde_json::from_str(l).ok()));
+    let Some(v) = parsed else {
+        eprintln!("child process for seed {} gave no result", plan.seed);
+        std::process::exit(2);
+    };
+    Outcome {
+        violations: serde_json::from_value(v["violations"].clone()).unwrap_or_default(),
+        ev_hash: hex(&v["ev_hash"]),
+        ev_count: v["ev_count"].as_u64().unwrap_or(0),
+        poll_hash: hex(&v["poll_hash"]),
+        polls: v["polls"].as_u64().unwrap_or(0),
+        sim_ns: v["sim_ns"].as_u64().unwrap_or(0),
+        stats: serde_json::from_value(v["stats"].clone()).unwrap_or_default(),
+        nontrivial: v["nontrivial"].as_bool().unwrap_or(false),
+        case_hash: hex(&v["case_hash"]),
+        probes: serde_json::from_value(v["probes"].clone()).unwrap_or_default(),
+        panics: Vec::new(),
+        extra_evaluations: v["extra_evaluations"].as_u64().unwrap_or(0),
+        extra_cases: v["extra_cases"].as_array().map(|a| a.iter().map(hex).collect()).unwrap_or_default(),
+    }
+}
+
 fn cell_of(plan: &Plan) -> String {
     format!("{}{}", plan.config.label(), if plan.config.users.len() > 1 && plan.config.proto == plan::Proto::Shadowsocks { "+users" } else { "" })
 }
@@ -207,7 +241,10 @@ fn main() {
                     std::process::exit(2);
                 };
                 *CURRENT.lock().unwrap() = Some(plan.clone());
-                let o = execute(&plan);
+                // a plan may ask for a process of its own: whatever /repo keeps in process-wide statics (caches that are filled by
+                // the first flow a process sees) is then in the state a freshly started client and server have, not in the state
+                // the previous plans of this worker left behind
+                let o = if plan.extra.get("fresh_process").and_then(|v| v.as_bool()) == Some(true) { execute_in_child(&plan) } else { execute(&plan) };
                 *CURRENT.lock().unwrap() = None;
                 let mut agg = agg.lock().unwrap();
                 if agg.samples.len() < 2 {
@@ -254,6 +291,9 @@ fn main() {
                 "sim_s": o.sim_ns as f64 / 1e9,
                 "stats": o.stats,
                 "probes": o.probes,
+                "ev_count": o.ev_count, "polls": o.polls, "sim_ns": o.sim_ns, "nontrivial": o.nontrivial,
+                "case_hash": format!("{:016x}", o.case_hash), "extra_evaluations": o.extra_evaluations,
+                "extra_cases": o.extra_cases.iter().map(|c| format!("{c:016x}")).collect::<Vec<_>>(),
             });
             println!("{}", serde_json::to_string(&res).unwrap());
         }
